@@ -43,10 +43,45 @@ type vfC02Call struct {
 	streams int           // response streams the statement promises (2 = header + data)
 	fails   bool          // the server answers with an error (exactly one exception batch)
 	cancel  bool          // client cancel: no exception expected, stream just ends
+	errOpt  bool          // the statement does not say whether an exception batch is written (failing cancel hook)
 }
 
 // vfC02BadState implements neither ProducerState nor ExchangeState.
 type vfC02BadState struct{ N int }
+
+// vfC02CancelProd / vfC02CancelExch are scripted states whose cancel hook fails
+// (the common VfProducer/VfExchanger hooks always return nil).
+type vfC02CancelProd struct {
+	S    VfScript
+	Mode string // "error" | "panic"
+}
+
+func (p *vfC02CancelProd) Produce(ctx context.Context, out *OutputCollector, cc *CallContext) error {
+	return p.S.run("produce", nil, out, cc)
+}
+func (p *vfC02CancelProd) OnCancel(ctx context.Context, cc *CallContext) error {
+	return vfC02FailingCancel(p.Mode, cc, p.S.Pos)
+}
+
+type vfC02CancelExch struct {
+	S    VfScript
+	Mode string
+}
+
+func (p *vfC02CancelExch) Exchange(ctx context.Context, in arrow.RecordBatch, out *OutputCollector, cc *CallContext) error {
+	return p.S.run("exchange", in, out, cc)
+}
+func (p *vfC02CancelExch) OnCancel(ctx context.Context, cc *CallContext) error {
+	return vfC02FailingCancel(p.Mode, cc, p.S.Pos)
+}
+
+func vfC02FailingCancel(mode string, cc *CallContext, pos int) error {
+	vfEvents = append(vfEvents, VfEvent{What: "cancel", Method: cc.Method, Pos: pos})
+	if mode == "panic" {
+		panic("cancel hook boom")
+	}
+	return &RpcError{Type: "RuntimeError", Message: "cancel hook failed"}
+}
 
 func vfC02Server() *Server {
 	s := NewServer()
@@ -114,6 +149,17 @@ func vfC02Server() *Server {
 	exch("e_finish0", false, VfTurn{Finish: true})
 	exch("e_noemit1", false, emit, VfTurn{})
 	exch("e_hdr", true, emit, emit)
+	for _, mode := range []string{"error", "panic"} {
+		mode := mode
+		Producer(s, "pc_"+mode, vfOutSchema, vfInitHandler(func(p VfXParams) (*StreamResult, error) {
+			return &StreamResult{OutputSchema: vfOutSchema, State: &vfC02CancelProd{Mode: mode,
+				S: VfScript{Name: "pc_" + mode, Turns: []VfTurn{emit, emitLog, emit, {Finish: true}}, Base: p.X * 1000}}}, nil
+		}))
+		Exchange(s, "ec_"+mode, vfOutSchema, vfInSchema, vfInitHandler(func(p VfXParams) (*StreamResult, error) {
+			return &StreamResult{OutputSchema: vfOutSchema, State: &vfC02CancelExch{Mode: mode,
+				S: VfScript{Name: "ec_" + mode, Turns: []VfTurn{emit, emitLog, emit}, Base: p.X * 1000}}}, nil
+		}))
+	}
 	Producer(s, "i_err", vfOutSchema, vfInitHandler(func(p VfXParams) (*StreamResult, error) {
 		return nil, &RpcError{Type: "ValueError", Message: "init refused"}
 	}))
@@ -214,6 +260,14 @@ func vfC02Alphabet(thorough bool) []vfC02Call {
 		}},
 		{name: "exchange-cancel@0", class: "client-cancel", streams: 1, cancel: true, wire: func() []byte { return vfC02Cat(vfXReq("e_echo", 1), in("c", d(4))) }},
 		{name: "exchange-with-header", class: "header-stream", streams: 2, wire: func() []byte { return vfC02Cat(vfXReq("e_hdr", 1), in(d(8))) }},
+		// --- client cancel on a stream whose cancel hook fails (what the response carries is not
+		// stated; that the session stays in frame is)
+		{name: "producer-cancel@0-hook-error", class: "client-cancel-hook-fails", streams: 1, cancel: true, errOpt: true, wire: func() []byte { return vfC02Cat(vfXReq("pc_error", 1), ticksWithCancel("ctt")) }},
+		{name: "producer-cancel@2-hook-error", class: "client-cancel-hook-fails", streams: 1, cancel: true, errOpt: true, wire: func() []byte { return vfC02Cat(vfXReq("pc_error", 2), ticksWithCancel("ttct")) }},
+		{name: "producer-cancel@1-hook-panic", class: "client-cancel-hook-fails", streams: 1, cancel: true, errOpt: true, wire: func() []byte { return vfC02Cat(vfXReq("pc_panic", 1), ticksWithCancel("tct")) }},
+		{name: "exchange-cancel@0-hook-error", class: "client-cancel-hook-fails", streams: 1, cancel: true, errOpt: true, wire: func() []byte { return vfC02Cat(vfXReq("ec_error", 1), in("c", d(4))) }},
+		{name: "exchange-cancel@1-hook-error", class: "client-cancel-hook-fails", streams: 1, cancel: true, errOpt: true, wire: func() []byte { return vfC02Cat(vfXReq("ec_error", 2), in(d(3), "c", d(4), d(5))) }},
+		{name: "exchange-cancel@1-hook-panic", class: "client-cancel-hook-fails", streams: 1, cancel: true, errOpt: true, wire: func() []byte { return vfC02Cat(vfXReq("ec_panic", 1), in(d(3), "c")) }},
 		// --- stream-init failures
 		{name: "init-error", class: "stream-init-failure", streams: 1, fails: true, wire: func() []byte { return vfC02Cat(vfXReq("i_err", 1), vfTicks(2)) }},
 		{name: "init-panic", class: "stream-init-failure", streams: 1, fails: true, wire: func() []byte { return vfC02Cat(vfXReq("i_panic", 1), vfTicks(2)) }},
@@ -373,6 +427,8 @@ func TestVerif_C02(t *testing.T) {
 			return cls + ":" + strings.SplitN(so.problem, ":", 2)[0], fmt.Sprintf("call %s alone: %s", c.name, so.problem)
 		case len(so.streams) != c.streams:
 			return cls + ":stream-count", fmt.Sprintf("call %s alone: %d response streams, the statement promises %d\n%s", c.name, len(so.streams), c.streams, all)
+		case c.errOpt && so.nErr <= 1:
+			// either reading
 		case c.fails && so.nErr != 1:
 			return cls + ":exception-count", fmt.Sprintf("call %s alone: %d exception batches, want exactly 1\n%s", c.name, so.nErr, all)
 		case !c.fails && so.nErr != 0:
